@@ -105,6 +105,12 @@ where
         let cc = com.cl03Commitment().clone();
         let tp = if kind == 1 { sh.tp.as_ref() } else { None };
         let tcom = tp.map(|t| Commitment::<CL03<CS>>::commit_with_commitment_pk(&msgs, t, Some(&hidden)).cl03Commitment().clone());
+        // a third of the honest generations follow a refused request on the same thread
+        if c.seed % 3 == 0 {
+            let mut bad = hidden.clone();
+            bad.push(n + c.spare as usize + 4);
+            let _ = catch(|| ZKPoK::<CL03<CS>>::generate_proof(&msgs, &cc, tcom.as_ref(), pk, &bases, tp, &bad));
+        }
         let zk = catch(|| ZKPoK::<CL03<CS>>::generate_proof(&msgs, &cc, tcom.as_ref(), pk, &bases, tp, &hidden)).map_err(|e| format!("generate_proof: {}", e))?;
         let c_issuer = CL03Commitment { value: cc.value.clone(), randomness: Integer::new() };
         let t_issuer = tcom.as_ref().map(|t| CL03Commitment { value: t.value.clone(), randomness: Integer::new() });
@@ -396,6 +402,7 @@ pub fn shared_blinding(v: &View) -> Option<(String, String, String, Vec<usize>)>
 }
 
 pub fn check_view(rep: &Report, ck: &str, c: &Case, v: &View) -> CheckResult {
+    crate::props::c19::record_lengths(v);
     let cj = |d: Value| json!({"case": c, "kind": v.kind, "hidden": v.hidden, "detail": d});
     let mut st = (c.seed as u64) << 3 | 7;
     // (A) openings of known secrets in (value, randomness) objects
@@ -698,6 +705,14 @@ pub fn run(ctx: &Ctx, rep: &Report) -> Meta {
         .map(|(k, c)| Case { small_mask: if k % 8 == 0 { c.hidden_mask } else { 1 << c.hidden_mask.trailing_zeros() }, seed: c.seed.wrapping_add(2000 + k as u32), ..c.clone() })
         .collect();
     par_items(ctx, rep, "small-attributes", &small, |c| one(rep, "small-attributes", c));
+    // run-level statistic: the length of a field that belongs to a hidden attribute must not follow the size of
+    // that attribute (the recipient would tell a small value from a digest at sight)
+    if !rep.aborted() {
+        match crate::props::c19::judge_lengths() {
+            Ok(n) => rep.note(format!("length statistic: {} (kind, field) pairs compared between small and full-size hidden attributes", n)),
+            Err((site, msg)) => rep.add_violation(Fail { check: "field-lengths".into(), site, msg, case: json!({"statistic": "field lengths over the run"}) }),
+        }
+    }
     // larger suites after the CL1024 proofs of this process (quick: two CL2048 proofs): the order "smaller suite
     // first" is the one in which state sized by the first suite is too small for the next
     if !rep.aborted() {
@@ -719,9 +734,9 @@ pub fn run(ctx: &Ctx, rep: &Report) -> Meta {
         }
     }
     Meta {
-        rule: "honest issuance proofs (with and without trusted-party commitment) and signature proofs for EVERY non-empty hidden set (n = 1..3 quick / 1..5 thorough) plus generated cases, high-entropy 256-bit attributes only, issuers with 0..3 more bases than attributes; \
+        rule: "honest issuance proofs (with and without trusted-party commitment) and signature proofs for EVERY non-empty hidden set (n = 1..3 quick / 1..5 thorough) plus generated cases, high-entropy 256-bit attributes only, issuers with 0..3 more bases than attributes, a third of the generations right after a refused request (hidden position out of range) on the same thread; \
                attacker programs over serde_json::to_value(proof) and the public base pairs {(a_i, b), (g_i, h)}: (A) every (value, randomness)-shaped object tested as an opening of every secret the prover holds, \
-               (B) every integer leaf as value against every integer leaf as randomness, (C) recovery of the signature's v as V * g^(-rho) over all leaf pairs, (D) dictionary attack with the true hidden attribute and a decoy in seed-shuffled order, by opening recomputation, by arithmetic relations (a field equal to or a multiple of the candidate) and by difference quotients (s - s')/(c - c') over all response pairs and all pairs of public challenges (shared blinding inside one proof), two-presentations: two proofs of one credential for the same commitment key generated in sequence on one thread share no field of 64 bits or more and no difference quotient (s - s')/(c - c') of a field over the two challenges equals e, s, v or a hidden attribute; (H) no two fields carry the same value unless both are copies of a commitment the verifier compares (half of the cases with two or more hidden attributes give them all the same value), (I) E_a_2 / E_b_2 of every embedded range proof are not the bare powers g^x of the second parts recomputed by the witness holder, (G) no field outside the stripped commitment randomness is exactly 0 or 1 (also with hidden attributes forced to 0 / 1: small-attributes), (F, by the witness holder) the blinding part V / M of every group-element field for every message part M in {one attribute, all, hidden, revealed, none} under each base family: two different fields with the same blinding part whose message parts differ in a hidden position, or a blinding part equal to 1; \
+               (B) every integer leaf as value against every integer leaf as randomness, (C) recovery of the signature's v as V * g^(-rho) over all leaf pairs, (D) dictionary attack with the true hidden attribute and a decoy in seed-shuffled order, by opening recomputation, by arithmetic relations (a field equal to or a multiple of the candidate) and by difference quotients (s - s')/(c - c') over all response pairs and all pairs of public challenges (shared blinding inside one proof), two-presentations: two proofs of one credential for the same commitment key generated in sequence on one thread share no field of 64 bits or more and no difference quotient (s - s')/(c - c') of a field over the two challenges equals e, s, v or a hidden attribute; (H) no two fields carry the same value unless both are copies of a commitment the verifier compares (half of the cases with two or more hidden attributes give them all the same value), over the whole run no field that belongs to a hidden attribute is always at least 24 bits shorter when the attribute is below 2^64; (I) E_a_2 / E_b_2 of every embedded range proof are not the bare powers g^x of the second parts recomputed by the witness holder, (G) no field outside the stripped commitment randomness is exactly 0 or 1 (also with hidden attributes forced to 0 / 1: small-attributes), (F, by the witness holder) the blinding part V / M of every group-element field for every message part M in {one attribute, all, hidden, revealed, none} under each base family: two different fields with the same blinding part whose message parts differ in a hidden position, or a blinding part equal to 1; \
                oracle: no program succeeds; positive control: the programs find a planted opening; non-trivial = proof with >= 1 hidden attribute; evaluations = attacker-program runs"
             .into(),
         assumptions: vec!["only the direct recomputation attacks named by the property are decided; subtler leaks are not found".into(), "attributes are random 256-bit values, so an accidental equality has probability < 2^-200".into()],
@@ -729,6 +744,9 @@ pub fn run(ctx: &Ctx, rep: &Report) -> Meta {
 }
 
 pub fn replay(ctx: &Ctx, rep: &Report, ck: &str, case: &Value) -> CheckResult {
+    if ck == "field-lengths" {
+        return crate::props::c19::replay(ctx, rep, ck, case);
+    }
     let c: Case = serde_json::from_value(case["case"].clone()).map_err(|e| Fail { check: ck.into(), site: "replay-parse".into(), msg: e.to_string(), case: case.clone() })?;
     let sh = shared(ctx, c.kind % 3 == 1);
     if ck == "two-presentations" {
